@@ -7,6 +7,7 @@ package liquid
 // length; the snapshot comparison below is the natively checkable shadow of it.
 
 import (
+	"github.com/osteele/liquid/render"
 	nd "github.com/osteele/liquid/zz_verifnd"
 )
 
@@ -211,4 +212,28 @@ func VerifC03Include() {
 	nd.Assert(o1 == o2, "second-render-identical")
 	nd.Assert(len(b) == 1, "bindings-size-unchanged")
 	nd.Reach("C03.include")
+}
+
+// VerifC03ExpandTagArg: a registered tag that expands its argument as a template leaves the parsed
+// template as it was: rendered again with other bindings it expands again (frame check on the tag's
+// node; render, other bindings, render).
+func VerifC03ExpandTagArg() {
+	e := NewEngine()
+	e.RegisterTag("echoarg", func(c render.Context) (string, error) { return c.ExpandTagArg() })
+	tpl, perr := e.ParseString("[{% echoarg a {{ x }} b %}]{% for i in (1..2) %}{% echoarg {{ i }}{{ x }} %};{% endfor %}")
+	nd.Assert(perr == nil, "parses")
+	if perr != nil {
+		return
+	}
+	x1, x2 := nd.IntIn(0, 4), nd.IntIn(5, 9)
+	nd.BeginRender()
+	o1, e1 := tpl.RenderString(Bindings{"x": x1})
+	nd.EndRender()
+	o2, e2 := tpl.RenderString(Bindings{"x": x2})
+	o3, e3 := tpl.RenderString(Bindings{"x": x1})
+	nd.Assert(e1 == nil && e2 == nil && e3 == nil, "expandtagarg-renders")
+	nd.Assert(o1 == "[a "+vItoa(x1)+" b]1"+vItoa(x1)+";2"+vItoa(x1)+";", "expandtagarg-first-render")
+	nd.Assert(o2 == "[a "+vItoa(x2)+" b]1"+vItoa(x2)+";2"+vItoa(x2)+";", "expandtagarg-expands-again-with-other-bindings")
+	nd.Assert(o3 == o1, "expandtagarg-same-bindings-same-output")
+	nd.Reach("C03.expandtagarg")
 }
